@@ -52,7 +52,7 @@ theorem C08_idempotent (cls : String) (fs : List Field) (h : Generated.classes.l
 
 /-- **C08 (bit exactness).** Whenever no field was normalised, the re-encoded payload is bit for bit
 the received one — except for the four padding bits of type 21's 88-bit `name_ext` and ragged
-variable-length tails (`RaggedTail`; known finding F14). -/
+variable-length tails (`RaggedTail`; known findings F27, F28). -/
 theorem C08_bit_exact (cls : String) (fs : List Field) (h : Generated.classes.lookup cls = some fs)
     (bits : Bits) (hb : OnBoundary fs bits.length) (hpad : PadZero E fs bits)
     (hex : AllExact env E fromRot fs bits) (hr : ¬ RaggedTail E fs bits) :
@@ -78,13 +78,25 @@ theorem C08_finding_empty_text :
         | .error _ => false)
      | .error _ => false) = true := by decide +kernel
 
-/-- **Known finding F14 (negation witness).** A full-length (360-bit) type-21 message whose fields
+/-- **Known finding F27 (negation witness).** A full-length (360-bit) type-21 message whose fields
 are all canonical is re-encoded with 356 bits: the four padding bits of `name_ext` are dropped. -/
 theorem C08_finding_type21_padding :
     let bits := ofNat 6 21 ++ ofNat 350 0 ++ ofNat 4 0
     (match seqDecode env bits 0 Generated.T_MessageType21 with
      | .ok kv => (match toBitarray env Generated.T_MessageType21 { cls := "MessageType21", fields := kv } with
         | .ok bits' => bits'.length == 356
+        | .error _ => false)
+     | .error _ => false) = true := by decide +kernel
+
+/-- **Known finding F28 (negation witness).** A full-length (1008-bit) type-14 message whose text
+field is completely filled (161 characters `A` and two zero padding bits) is re-encoded with 1006
+bits. -/
+theorem C08_finding_type14_padding :
+    let bits := ofNat 6 14 ++ ofNat 34 1 ++ ((List.replicate 161 (ofNat 6 1)).flatten ++ [false, false])
+    (bits.length == 1008 &&
+     match seqDecode env bits 0 Generated.T_MessageType14 with
+     | .ok kv => (match toBitarray env Generated.T_MessageType14 { cls := "MessageType14", fields := kv } with
+        | .ok bits' => bits'.length == 1006 && bits' == bits.take 1006
         | .error _ => false)
      | .error _ => false) = true := by decide +kernel
 
@@ -100,4 +112,5 @@ example : OnBoundary Generated.T_MessageType1 168 :=
 #print axioms C08_bit_exact
 #print axioms C08_finding_empty_text
 #print axioms C08_finding_type21_padding
+#print axioms C08_finding_type14_padding
 end C08
